@@ -25,6 +25,13 @@ claim("C17", "edge-cut reachability on dense page loops, including obligations o
       "Decides, symbolically in the page size, that every dense page loop skips ltx.LockPgno, that the ltx encoder cannot emit the lock page and that the decoder writes a zero page there. Byte equality of other pages is not decided.",
       _TB, "DESIGN.md 3/C17")
 
+claim("C03", "who-may-create + TMP-provenance + edge-cut reachability (custom analyser)",
+      "Decides the structural clauses that make a kill at any instant harmless: every create-for-write opener in production code targets a temporary name and every rename publishes dst+.tmp, Open removes stale temporaries before monitoring starts, listings ignore foreign names, the local position comes from a checksum-verified file, the replica position is reset on every error exit, staged files are removed on failure. Syscall-level kill enumeration is not performed.",
+      _TB, "DESIGN.md 3/C03")
+claim("C11", "file-publication typestate: forward must-dataflow + edge-cut reachability at every os.Rename",
+      "Decides, for every path through every publication site of the local file system, fsync-after-last-write before rename, directory fsync before success, and fail-stop of sync/close/rename/dirsync errors. This is the property as stated for local files (call order on all paths); physical durability of fsync and remote back ends are not decided. One defect found and fixed (F5).",
+      _TB, "DESIGN.md 3/C11")
+
 _pending = "check not built yet in this revision (planned, see DESIGN.md section 3); not claimed until its rules run clean on the unchanged tree"
-for _p in ["C01","C03","C04","C05","C06","C10","C11","C12","C13","C14","C16","C18","C19"]:
+for _p in ["C01","C04","C05","C06","C10","C12","C13","C14","C16","C18","C19"]:
     na(_p, _pending)
